@@ -8,6 +8,7 @@ In-process: shuffled evaluation orders, polluter programs on other contexts, two
 """
 import glob
 import os
+import json
 import random
 
 from vf import progen
@@ -73,12 +74,21 @@ def w_digest(case, opts):
     return out
 
 
+GLOBAL_NAMES = ["Math", "JSON", "Object", "Array", "String", "Number", "Boolean", "RegExp", "Error", "TypeError", "RangeError", "SyntaxError", "ReferenceError", "Function", "Date", "console",
+                "Int8Array", "Uint8Array", "Int32Array", "Float64Array", "ArrayBuffer", "parseInt", "parseFloat", "isNaN", "isFinite", "eval"]
+# what a fresh context shows of each built-in (own keys, a few values, prototype keys): must not depend on what other contexts of the process did
+FINGERPRINTS = ["(function () { var G = typeof %s === 'undefined' ? undefined : %s; if (G === undefined || G === null) { return 'absent'; } var p = G.prototype; "
+                "return [typeof G, Object.keys(G).sort().join(), G.polluted, typeof G.extraFn, p ? Object.keys(p).sort().join() : 'noproto', p ? p.polluted : 0, String(G.PI), typeof G.max, typeof G.parse, typeof G.keys, "
+                "typeof G.isArray, typeof G.fromCharCode, G.length, G.name]; })()" % (g, g) for g in GLOBAL_NAMES]
 POLLUTERS = [
     "var o = {}; for (var i = 0; i < 50; i++) { o['k' + i] = i; } Object.keys(o).length;",
     "Object.prototype.zzz = 1; Array.prototype.qqq = 2; Math.PI = 3; JSON.parse = null; 1;",
     "try { null.x; } catch (e) {} try { undefinedFn(); } catch (e2) {} /(a+)+b/.test('aaaaaaaaaaaaaaaaaaaaaa'); 1;",
     "var f = function(){ return function(){ return arguments; }; }; f()(1,2,3).length;",
     "(((",
+    "var NAMES = %s; for (var i = 0; i < NAMES.length; i++) { try { var G = (0, eval)(NAMES[i]); G.polluted = 'P' + i; G.extraFn = function () {}; if (G.prototype) { G.prototype.polluted = i; } "
+    "G.PI = 3; G.max = null; G.parse = 1; G.keys = 2; G.isArray = 3; G.fromCharCode = 4; delete G.min; delete G.stringify; } catch (e) {} } 1;" % json.dumps(GLOBAL_NAMES),
+    "Math.random = function () { return 0.5; }; Math.clamp = function (x) { return x; }; parseInt = function () { return -1; }; undefined = 1; NaN = 2; Infinity = 3; 1;",
     "var s = ''; for (var j = 0; j < 200; j++) { s += String.fromCharCode(65 + j % 26); } s.split('').sort().join('');",
 ]
 
@@ -136,6 +146,7 @@ def main(ctx):
         progs.append("var o = {true: 'T', false: 'F', 0: 'zero', 1: 'one', 'null': 'N', 'undefined': 'U', 'NaN': 'nan', '0.5': 'half', '01': 'oct'}; var a = [10, 20]; "
                      "log(o[%s], a[%s], typeof (%s), String(%s), (%s) + '', [%s].join(), JSON.stringify(%s), (%s) === 1, (%s) == 1, 1 / (%s)); 'done'" % ((k,) * 10))
         progs.append("var m = {}; m[%s] = 'set'; log(Object.keys(m), m[%s]); var s = 'ab'; log(s[%s], s.charAt(%s), [5, 6].indexOf(%s), Math.max(%s, 0), (%s) | 0); 'done'" % ((k,) * 7))
+    progs += FINGERPRINTS + ["[Math.PI, typeof Math.clamp, Math.max(1, 2), typeof Math.random, parseInt('12'), typeof undefined, NaN !== NaN, Infinity > 1e308, JSON.stringify({a: [1]}), [3, 1].sort().join()].join('|')"]
     # refusals at the size limits: which operand is reported must not depend on set iteration order either
     for n in (250, 257, 300):
         names = ["v%d" % i for i in range(n)]
